@@ -81,12 +81,25 @@ def arg_tuples(shapes, maxlen):
     return out
 
 
+# ":ffi-use - disallow using any previously bound FFI functions and memory-unsafe functions": calls that are well formed
+# (they return a value when nothing is disabled) and must therefore raise when :ffi-use is disabled
+FFI_UNSAFE = {
+    "ffi/read": [("ffi-int", "bytes8"), ("ffi-int", "str8"), ("ffi-ptr", "bytes8"), ("ffi-int", "bytes8", "zero")],
+    "ffi/write": [("ffi-int", "zero"), ("ffi-int", "zero", "bytes8")],
+    "ffi/malloc": [("eight",)],
+    "ffi/free": [("zero",)],
+}
+
+
 def make_items(funs, tuples):
     items = []
     for f in funs:
         for t in tuples:
             items.append(jdn([f] + [Kw(s) for s in t]))
     return items
+
+
+ffi_ok = set()      # FFI items that return a value when nothing is disabled (filled by the baseline sweep)
 
 
 def run_config(chk, label, flags, items, scratch, thread=False, chunk=3000):
@@ -118,6 +131,12 @@ def run_config(chk, label, flags, items, scratch, thread=False, chunk=3000):
             else:
                 stats[text if text in stats else "ret"] += 1
                 chk.outcome((label, text), nontrivial=False)
+                fname = it.split('"')[1]
+                if not thread and text == "ret" and fname in FFI_UNSAFE and any(f in flags for f in ("ffi-use", "ffi", "all")) and it in ffi_ok:
+                    chk.violation("ffi-use:%s:returned%s" % (fname, {0: "", 1: ":thread", 2: ":detached-thread"}[int(thread)]),
+                                  "config (%s): %s returned a value although :ffi-use is disabled (it returns a value with "
+                                  "nothing disabled, so the arguments are well formed)" % (" ".join(flags), it),
+                                  "(sandbox %s)\n(pp (protect (%s ...)))  # item %s\n" % (" ".join(":" + f for f in flags), fname, it))
         elif st == "ERR":
             stats["drvfail"] += 1
             chk.outcome(("drv", text[:40]), nontrivial=False)
@@ -138,6 +157,10 @@ def baseline_interesting(chk, items, scratch):
     keep = []
     classes = {}
     for it, (st, text) in zip(items, res):
+        if st == "OK" and text == "ret" and it.split('"')[1] in FFI_UNSAFE:
+            ffi_ok.add(it)
+            keep.append(it)
+            continue
         if st == "OK" and text.startswith("VIOL "):
             keep.append(it)
             for ent in text[5:].split(";"):
@@ -239,6 +262,18 @@ def main():
         chk.part("functions", total=len(funs), blocked=len(BLOCK))
         t2 = arg_tuples(SHAPES, 2)
         items = make_items(funs, t2)
+        # three-argument calls of the socket constructors (the third argument selects the socket type and, in the
+        # implementation, the path through the capability tests)
+        # the memory-unsafe FFI functions on well-formed arguments that reach no libc entry at all: with :ffi-use disabled
+        # they must raise (API-level rule, see FFI_UNSAFE below)
+        ffi_items = []
+        for f, tups in FFI_UNSAFE.items():
+            if f in funs:
+                ffi_items += make_items([f], tups)
+        items += ffi_items
+        net3 = [f for f in ("net/listen", "net/connect", "net/server", "net/address") if f in funs]
+        items += make_items(net3, [(h, "port", "datagram") for h in ("addr", "hostname", "unix")] +
+                            [("addr", "port", "r"), ("addr", "port", "zero")])
         keep, classes = baseline_interesting(chk, items, scratch)
         chk.cov["distinct_nontrivial"] = len(keep)
         # fail closed: the interposer must have seen each class at least once in the baseline
